@@ -123,7 +123,7 @@ fn tmp_dir() -> PathBuf {
 }
 
 fn hang_secs() -> u64 {
-    env_u64("VERIF_HANG_SECS").unwrap_or(120)
+    env_u64("VERIF_HANG_SECS").unwrap_or(30)
 }
 
 fn env_u64(k: &str) -> Option<u64> {
@@ -500,7 +500,9 @@ pub fn check(engine: &mut dyn Engine, prop: &str, tier: &str) -> i32 {
                     break;
                 }
                 crashes += 1;
-                if crashes > 20 {
+                let hung = matches!(&crashed, Some((_, n)) if n.starts_with("HANG"));
+                if crashes >= 3 || hung {
+                    // enough evidence from this chain; do not keep burning wall-clock
                     break;
                 }
                 match crashed {
@@ -615,7 +617,7 @@ pub fn check(engine: &mut dyn Engine, prop: &str, tier: &str) -> i32 {
             ));
             continue;
         }
-        if gi >= 12 {
+        if gi >= 6 {
             unlisted += 1;
             continue;
         }
@@ -842,7 +844,7 @@ fn shrink(engine: &mut dyn Engine, inp: &str, outp: &str) -> i32 {
     let inv = f["invariant"].as_str().unwrap_or("").to_string();
     let sig = f["signature"].as_str().unwrap_or("").to_string();
     let mut cur = f["desc"].clone();
-    let mut budget = 300;
+    let mut budget = 200;
     let mut steps = 0;
     let mut detail = f["detail"].clone();
     'outer: loop {
@@ -868,7 +870,7 @@ fn shrink(engine: &mut dyn Engine, inp: &str, outp: &str) -> i32 {
     f["desc"] = cur;
     f["detail"] = detail;
     f["shrink_steps"] = json!(steps);
-    f["shrink_executions"] = json!(300 - budget);
+    f["shrink_executions"] = json!(200 - budget);
     std::fs::write(outp, serde_json::to_string_pretty(&f).unwrap()).unwrap();
     0
 }
